@@ -479,7 +479,16 @@ Holds(c, step, g, g2) ==
            IN \* "exactly the stored objects that satisfy the request": same objects, none twice; the
               \* order of a listing (store key order, e.g. raw address bytes) is not part of the property
               /\ Len(got) = Len(exp)
-              /\ {got[k] : k \in 1..Len(got)} = {exp[k] : k \in 1..Len(exp)}
+              /\ IF "limit" \in DOMAIN m /\ m.q # "ListAllowedBidder"
+                 THEN got = exp             \* a page is a slice of the listing in store order (keys ascending)
+                 ELSE IF "limit" \in DOMAIN m
+                 THEN \* allow-list entries are stored in raw address order, which the model does not know: a page must
+                      \* consist of distinct objects that satisfy the request
+                      LET all == QueryAll(pre, m) IN
+                      /\ \A k \in 1..Len(got) : \E j \in 1..Len(all) : got[k] = all[j]
+                      /\ \A k, j \in 1..Len(got) : k # j => got[k] # got[j]
+                 ELSE {got[k] : k \in 1..Len(got)} = {exp[k] : k \in 1..Len(exp)}
+              /\ step.extra.page = PageInfo(pre, m)
         /\ post = pre
         /\ (ok <=> (m.q \notin {"GetAuction", "GetBid", "GetAllowedBidder"} \/ QueryAnswer(pre, m) # <<>>))
   (* ---------------- C17 hooks ---------------- *)
